@@ -55,21 +55,21 @@ prop("C05", [PL.rule_PL1, PL.rule_PL3, PL.rule_PL7, PN.rule_PN_plugin, SQ.rule_S
      "only mutators write, pending work is re-queued at start-up and on idle wake-up, loaders agree (PL7); no tower reply or repeated notification reaches an unwrap (PNp). "
      "NOT decided: SIGKILL durability, exactly-one-of accounting across towers over a history.",
      technique="reply-class enumeration by CFG reachability + classified-unwrap table + SQL insert classification")
-prop("C06", [RT.rule_AU1, RO.rule_OR2_watcher, RT.rule_SB],
+prop("C06", [RT.rule_AU1, RO.rule_OR2_watcher, RT.rule_SB, WT.rule_WT3],
      STATIC + "Decided for add_appointment / get_appointment / get_subscription_info: nothing that takes a lock (reads or writes tower state) is reachable before authenticate_user succeeded and "
      "has_subscription_expired was found false; the expired path is effect-free; every user id flowing into UUID::new / ExtendedAppointment::new / add_update_appointment / get_user_info / "
      "has_subscription_expired is the Ok payload of authenticate_user; the signed message is the request-specific one and its template equals what the client signs; "
-     "authenticate_user returns Ok only for a recovered key that is a registered user; appointments of different users under one locator are handled independently per block (OR2w: every (locator, uuid) pair is visited, a failure of one never ends the loop); the expiry the check reads moves only with an accepted, persisted renewal (SB all-or-nothing). NOT decided: cryptographic claims, isolation over multi-user histories.",
+     "authenticate_user returns Ok only for a recovered key that is a registered user; appointments of different users under one locator are handled independently per block (OR2w: every (locator, uuid) pair is visited, a failure of one never ends the loop); the expiry the check reads moves only with an accepted, persisted renewal (SB all-or-nothing); the bytes a signature is checked against determine every field of the request (WT3: each field once, integers whole) — otherwise a signature over one appointment authenticates another. NOT decided: cryptographic claims, isolation over multi-user histories.",
      technique="branch-fact dataflow + origin tracing (identity provenance) + literal cross-check")
 prop("C07", [RT.rule_SL, LK.rule_AT2, RO.rule_EF2, RO.rule_EF3, SQ.rule_SQ3, SQ.rule_SQ5_tower, LK.rule_CBS],
      STATIC + "Decided: the only subtraction of slots is guarded by `required - used <= available` and equals available - (slots(new) - slots(stored for this uuid)); renewal uses checked_add; "
      "refund adds slots(stored blob) and is persisted in the deletion's transaction; one critical section per balance update; only completion refunds; one divisor (2048) at all charge/refund sites; "
      "the balance reported is the one computed and persisted; a charge is always followed by the store (no refusal after the balance moved) (CBS). NOT decided: the conservation law over histories, the float slot formula per blob length.",
      technique="comparison/arithmetic shape rules over origin terms + lock spans")
-prop("C08", [RT.rule_RC, WT.rule_WT3, SQ.rule_SQ2],
+prop("C08", [RT.rule_RC, WT.rule_WT3, SQ.rule_SQ2, LK.rule_AT2],
      STATIC + "Decided: an appointment receipt is returned only on paths that stored the appointment / handed it to the responder, is built from the same ExtendedAppointment (request signature, "
      "height at acceptance) and is signed with the tower key; registration receipts are built from the persisted record; gRPC responses map like-named fields (RC); signed layouts cover every field "
-     "once with at most one variable-length component, integers whole through to_be_bytes of their own width (WT3); updates rewrite all mutable columns, inserts/updates bind parameters in column order (SQ2). NOT decided: signature validity, byte-for-byte read-back.",
+     "once with at most one variable-length component, integers whole through to_be_bytes of their own width (WT3); updates rewrite all mutable columns, inserts/updates bind parameters in column order (SQ2); every read-modify-write of a user record is one critical section, so the record a registration receipt was built from is not overwritten by a concurrent stale copy (AT2). NOT decided: signature validity, byte-for-byte read-back.",
      technique="dominance + field-level origin tracing + SQL/bind-order tables")
 prop("C09", [RT.rule_SB, RO.rule_OR2_gatekeeper, RO.rule_OR1, SQ.rule_SQ1, RT.rule_AU1],
      STATIC + "Decided: expired = (height >= subscription_expiry) reporting that expiry; outdated = (block_height >= subscription_expiry + expiry_delta); renewal = checked_add(expiry, duration).unwrap_or(MAX) "
